@@ -42,6 +42,17 @@ fn idle_history(rng: &mut Rng, cap: Option<usize>) -> (Vec<u8>, Option<&'static 
 }
 
 fn gen_c08(tier: &Tier, rng: &mut Rng, w: usize, nw: usize, out: &mut Vec<Case>) {
+    if tier.thorough && w == 4 % nw {
+        // more than 2^32 noise bytes ending in a partial start sequence (implementation + oracle only)
+        let m = vec![0x12u8, 0x34];
+        let g_tok = "aa*4294967296,1b1b1b1b0101";
+        let glen: u64 = 4294967296 + 6;
+        out.push(
+            Case::new("noise-4gib", vec![format!("dec inf - {} {} F", g_tok, tok(&spec::frame(&m)))])
+                .with_aux(vec!["0".into(), format!("LEN:{}", glen), hex(&m)])
+                .impl_only(true),
+        );
+    }
     // (a) exhaustive noise over the alphabet, filtered by START-freeness, fresh decoder
     let maxl = if tier.thorough { 8 } else { 6 };
     let mut idx = 0usize;
@@ -545,6 +556,10 @@ fn glr_prefix() -> Vec<u8> {
 }
 
 fn gen_c06(tier: &Tier, rng: &mut Rng, _w: usize, nw: usize, out: &mut Vec<Case>) {
+    if tier.thorough && _w == 5 % nw {
+        // a type-length field spanning 2^32 bytes (defect D7): implementation + oracle only
+        out.push(Case::new("tlf-4gib", vec!["parse 76,80*4294967296,05".to_string(), "stream 76,80*4294967296,05 2".to_string()]).impl_only(true));
+    }
     for (k, cnt) in BIG_COUNTS.iter().enumerate() {
         if k % nw == _w {
             for (x, _) in [big_list_file(*cnt), many_messages_file(*cnt), long_string_file(*cnt)] {
@@ -604,6 +619,10 @@ fn gen_c06(tier: &Tier, rng: &mut Rng, _w: usize, nw: usize, out: &mut Vec<Case>
 }
 
 fn gen_c12(tier: &Tier, rng: &mut Rng, w: usize, nw: usize, out: &mut Vec<Case>) {
+    if tier.thorough && w == 5 % nw {
+        // a type-length field spanning 2^32 bytes (defect D7): the rule says length underflow
+        out.push(Case::new("tlf-long-octet", vec!["stream 76,80*4294967296,05 1".to_string()]).with_aux(vec!["err:TlfLengthUnderflow".into()]).impl_only(true));
+    }
     // (a) TLF at the list position: all 1- and 2-byte fields exhaustively (thorough: 3-byte too, sampled in quick)
     let mut idx = 0usize;
     let mut push_list = |t: Vec<u8>, out: &mut Vec<Case>| {
